@@ -115,4 +115,10 @@ pub mod verif_hooks {
     pub use super::references::references;
     pub use super::rename::rename;
     pub use super::signature_helper::signature_help;
+    // range-taking requests and the async entry points that take the server context (add-only)
+    pub use super::document_color::on_document_color_presentation;
+    pub use super::document_range_formatting::on_range_formatting_handler;
+    pub use super::inlay_hint::{inlay_hint, on_inlay_hint_handler};
+    pub use super::text_document::{on_did_change_text_document, on_did_open_text_document};
+    pub use crate::context::{ClientId, ServerContext, ServerContextSnapshot};
 }
